@@ -1,8 +1,8 @@
 package main
 
 import (
-	"go/token"
 	"fmt"
+	"go/token"
 	"go/types"
 	"sort"
 	"strings"
@@ -53,7 +53,9 @@ func runC20(c *Ctx) {
 			args := in.(ssa.CallInstruction).Common().Args
 			a, b := termOf(args[len(args)-2]), termOf(args[len(args)-1])
 			isStatus := func(t *Term) bool { return t.lastField() == "Status" && rootParam(t) == 0 }
-			isNew := func(t *Term) bool { return t.contains(func(x *Term) bool { return x.isCallTo(getS) }) && t.lastField() == "" }
+			isNew := func(t *Term) bool {
+				return t.contains(func(x *Term) bool { return x.isCallTo(getS) }) && t.lastField() == ""
+			}
 			if (isStatus(a) && isNew(b)) || (isStatus(b) && isNew(a)) {
 				ok = true
 			}
